@@ -1,6 +1,7 @@
 package main
 
 import (
+	"github.com/rminnich/go9p/vs"
 	"fmt"
 	"os"
 	"path/filepath"
@@ -142,5 +143,58 @@ func c06MapMonitorScenarios(tier string) []Scenario {
 			out = append(out, vsScenario(c11Spec(c11Params{Prefix: 5, Parked: parked, Release: idx, Close: cl, Maxpend: i % 3, Dotu: i%2 == 0, P: D}, true)))
 		}
 	}
+	out = append(out, c06UfsUserTableScenario(D, false), c06UfsUserTableScenario(D, true))
 	return out
+}
+
+// the bundled Unix file server with its process-wide user and group tables: requests
+// in flight at once that name users the process has not looked up before
+func c06UfsUserTableScenario(D int, two bool) Scenario {
+	var base, root string
+	name := fmt.Sprintf("map-monitor ufs fresh users in flight two-connections=%v", two)
+	body := func() {
+		vs.EnableHB()
+		os.RemoveAll(root)
+		os.MkdirAll(root, 0o755)
+		os.WriteFile(filepath.Join(root, "f"), []byte("x"), 0o644)
+		os.Chown(filepath.Join(root, "f"), 1234, 2345)
+		h := newUfsH(root, 8216, true)
+		c := h.Connect()
+		c.Version(8216, "9P2000.u")
+		c2 := c
+		if two {
+			c2 = h.Connect()
+			c2.Version(8216, "9P2000.u")
+		}
+		vs.Window(true)
+		c.Send(true, tattach(1, 0, wire.NOFID, "", uint32(os.Geteuid()), true), tattach(2, 1, wire.NOFID, "", 1, true))
+		c2.Send(true, tattach(3, 2, wire.NOFID, "", 2, true))
+		vs.Idle()
+		c.Send(true, twalk(4, 0, 5, "f"), &wire.Msg{Type: wire.Tstat, Tag: 5, Fid: 0})
+		vs.Idle()
+		c.Send(true, &wire.Msg{Type: wire.Tstat, Tag: 6, Fid: 5})
+		c2.Send(true, tattach(7, 9, wire.NOFID, "", 3, true))
+		vs.Idle()
+		vs.Window(false)
+	}
+	check := func(x *vs.Exec) *Viol {
+		for _, p := range x.Panics {
+			return &Viol{Sig: "C06/panic/" + p.Frame + "/" + panicClass(p.Value), Msg: "panic: " + p.Value + "\n" + trimStack(p.Stack)}
+		}
+		for _, r := range x.Races() {
+			if strings.HasPrefix(r.SiteA, "map@") && strings.HasPrefix(r.SiteB, "map@") && (r.WriteA || r.WriteB) {
+				a, b := r.SiteA, r.SiteB
+				if a > b {
+					a, b = b, a
+				}
+				return &Viol{Sig: "C06/concurrent-map-access/" + a + "/" + b, Msg: "unsynchronised concurrent access to a Go map by two requests in flight - the Go runtime aborts the whole process with 'fatal error: concurrent map read and map write': " + r.String()}
+			}
+		}
+		return nil
+	}
+	return Scenario{Name: name, Run: func(rc *RunCtx) *Result {
+		base, root = scratchDir("c06")
+		defer os.RemoveAll(base)
+		return runVs(rc, &VsSpec{Name: name, Body: body, Check: check, P: D, Delay: true})
+	}}
 }
